@@ -1468,4 +1468,159 @@ theorem rule_unref (E : Env) (k : OK ρ) (n fuel : Nat) (r : ρ) (tag : Nat) (s 
           have p1' : L'.ptr 1 = some p := by rw [g2]; exact p1
           simp [Gen.PegSkel.RULE_UNREF_rest0, execL, execStmt, p1', g3, ht, up1, bind, Except.bind]
 
+/-! #### the loop cases without fuel hypotheses
+
+`rule_to_thru`, `rule_til`, `rule_choice`, `rule_sequence`, `rule_lenprefix`, `rule_unref` ask for "enough IR loop fuel"; the bound is
+a function of the state only, so the fuel-free meaning `Returns` of the extracted program IS the `Op.step` case, with no hypothesis
+on fuel.  `rule_between` / `rule_split` run the IR with the MODEL's loop fuel `n`; their model loops are monotone in `n`
+(`betweenLoop_mono`, `splitLoop_mono`), so whenever the model's own fuel sufficed (its answer is not `Err.fuel`), that answer is the
+fuel-free meaning of the extracted program - `s.textEnd + 2 ≤ n` of `rule_split` is gone. -/
+
+theorem rule_to_thru_returns (E : Env) (k : OK ρ) (hk : KeepsWindow k) (n : Nat) (isTo : Bool) (r : ρ) (s : St) (pos : Nat) :
+    Returns (fun fuel => runL E k ⟨opsRule [(1, r)], opsWord [(0, if isTo then Gen.Peg.RULE_TO else Gen.Peg.RULE_THRU)], fun _ => .nil,
+        fun _ => []⟩ fuel Gen.PegSkel.RULE_TO s pos)
+      (Op.step E k n (if isTo then .to r else .thru r) s pos) :=
+  ⟨s.textEnd + 1 - pos + 1, fun fuel hf => rule_to_thru E k hk n fuel isTo r s pos hf⟩
+
+/-- inside a match the window never exceeds the text (`never_reads_outside`), so `|text| + 2` units are enough at every state -/
+theorem rule_to_thru_text_bound (E : Env) (k : OK ρ) (hk : KeepsWindow k) (n fuel : Nat) (isTo : Bool) (r : ρ) (s : St) (pos : Nat)
+    (hwin : s.textEnd ≤ E.text.length) (hf : E.text.length + 2 ≤ fuel) :
+    runL E k ⟨opsRule [(1, r)], opsWord [(0, if isTo then Gen.Peg.RULE_TO else Gen.Peg.RULE_THRU)], fun _ => .nil, fun _ => []⟩ fuel
+        Gen.PegSkel.RULE_TO s pos =
+      Op.step E k n (if isTo then .to r else .thru r) s pos :=
+  rule_to_thru E k hk n fuel isTo r s pos (by omega)
+
+theorem rule_til_returns (E : Env) (k : OK ρ) (hk : KeepsWindow k) (n : Nat) (t r : ρ) (s : St) (pos : Nat) :
+    Returns (fun fuel => runL E k (ops [(1, t), (2, r)] []) fuel Gen.PegSkel.RULE_TIL s pos) (Op.step E k n (.til t r) s pos) :=
+  ⟨s.textEnd + 1 - pos + 1, fun fuel hf => rule_til E k hk n fuel t r s pos hf⟩
+
+theorem rule_til_text_bound (E : Env) (k : OK ρ) (hk : KeepsWindow k) (n fuel : Nat) (t r : ρ) (s : St) (pos : Nat)
+    (hwin : s.textEnd ≤ E.text.length) (hf : E.text.length + 2 ≤ fuel) :
+    runL E k (ops [(1, t), (2, r)] []) fuel Gen.PegSkel.RULE_TIL s pos = Op.step E k n (.til t r) s pos :=
+  rule_til E k hk n fuel t r s pos (by omega)
+
+theorem rule_choice_returns (E : Env) (k : OK ρ) (n : Nat) (rs : List ρ) (s : St) (pos : Nat) :
+    Returns (fun fuel => runL E k (opsList rs) fuel Gen.PegSkel.RULE_CHOICE s pos) (Op.step E k n (.choice rs) s pos) :=
+  ⟨rs.length + 1, fun fuel hf => rule_choice E k n fuel rs s pos hf⟩
+
+theorem rule_sequence_returns (E : Env) (k : OK ρ) (n : Nat) (rs : List ρ) (s : St) (pos : Nat) :
+    Returns (fun fuel => runL E k (opsList rs) fuel Gen.PegSkel.RULE_SEQUENCE s pos) (Op.step E k n (.sequence rs) s pos) :=
+  ⟨rs.length + 1, fun fuel hf => rule_sequence E k n fuel rs s pos hf⟩
+
+theorem rule_lenprefix_returns (E : Env) (hE : E.lenprefixLeak = false) (k : OK ρ) (n : Nat) (a b : ρ) (s : St) (pos : Nat) :
+    Returns (fun fuel => runL E k (ops [(1, a), (2, b)] []) fuel Gen.PegSkel.RULE_LENPREFIX s pos)
+      (Op.step E k n (.lenprefix a b) s pos) :=
+  ⟨2147483648, fun fuel hf => rule_lenprefix E hE k n fuel a b s pos hf⟩
+
+theorem rule_unref_returns (E : Env) (k : OK ρ) (n : Nat) (r : ρ) (tag : Nat) (s : St) (pos : Nat) :
+    Returns (fun fuel => runL E k (ops [(1, r)] [(2, tag)]) fuel Gen.PegSkel.RULE_UNREF s pos) (Op.step E k n (.unref r tag) s pos) := by
+  refine ⟨(match down1 s with
+    | .ok s0 => (match k r s0 pos with | .ok (_, s1) => s1.tagged.length - s.tagged.length + 1 | .error _ => 0)
+    | .error _ => 0), fun fuel hf => rule_unref E k n fuel r tag s pos ?_⟩
+  intro s0 res s1 hd hk
+  simpa [hd, hk] using hf
+
+/-- the model's RULE_BETWEEN loop does not change its answer when given more fuel -/
+theorem betweenLoop_mono (k : OK ρ) (r : ρ) (hi : Nat) :
+    ∀ (n : Nat) (c : Nat) (s : St) (pos : Nat) (res : Except Err (Nat × Nat × St)),
+      Op.betweenLoop k r hi n c s pos = res → res ≠ .error .fuel → ∀ n', n ≤ n' → Op.betweenLoop k r hi n' c s pos = res := by
+  intro n
+  induction n with
+  | zero => intro c s pos res h hne; simp [Op.betweenLoop] at h; exact absurd h.symm hne
+  | succ n ih =>
+    intro c s pos res h hne n' hn'
+    obtain ⟨m, rfl⟩ : ∃ m, n' = m + 1 := ⟨n' - 1, by omega⟩
+    simp only [Op.betweenLoop] at h ⊢
+    by_cases hc : c < hi
+    · simp only [hc, if_true] at h ⊢
+      cases hk : k r s pos with
+      | error e => simp only [hk, bind, Except.bind] at h ⊢; exact h
+      | ok x =>
+        obtain ⟨q, s1⟩ := x
+        cases q with
+        | none => simp only [hk, bind, Except.bind] at h ⊢; exact h
+        | some p =>
+          simp only [hk, bind, Except.bind] at h ⊢
+          by_cases hz : (p == pos ∧ hi == uintMax)
+          · simp only [hz, if_true] at h ⊢; exact h
+          · simp only [hz, if_false] at h ⊢
+            exact ih (c + 1) s1 p res h hne m (by omega)
+    · simp only [hc, if_false] at h ⊢; exact h
+
+theorem rule_between_returns (E : Env) (k : OK ρ) (n : Nat) (lo hi : Nat) (r : ρ) (s : St) (pos : Nat)
+    (hn : ∀ s0, down1 s = .ok s0 → Op.betweenLoop k r hi n 0 s0 pos ≠ .error .fuel) :
+    Returns (fun fuel => runL E k (ops [(3, r)] [(1, lo), (2, hi)]) fuel Gen.PegSkel.RULE_BETWEEN s pos)
+      (Op.step E k n (.between lo hi r) s pos) := by
+  refine ⟨n, fun fuel hf => ?_⟩
+  show runL E k (ops [(3, r)] [(1, lo), (2, hi)]) fuel Gen.PegSkel.RULE_BETWEEN s pos = _
+  rw [rule_between E k fuel lo hi r s pos]
+  simp only [Op.step]
+  cases hd : down1 s with
+  | error e => rfl
+  | ok s0 =>
+    simp only [bind, Except.bind]
+    rw [betweenLoop_mono k r hi n 0 s0 pos _ rfl (hn s0 hd) fuel hf]
+
+/-- ... nor does the RULE_SPLIT loop -/
+theorem splitLoop_mono (k : OK ρ) (sep sub : ρ) (se : Nat) :
+    ∀ (n : Nat) (s : St) (cstart pos : Nat) (res : ORes),
+      Op.splitLoop k sep sub se n s cstart pos = res → res ≠ .error .fuel → ∀ n', n ≤ n' → Op.splitLoop k sep sub se n' s cstart pos = res := by
+  intro n
+  induction n with
+  | zero => intro s cstart pos res h hne; simp [Op.splitLoop] at h; exact absurd h.symm hne
+  | succ n ih =>
+    intro s cstart pos res h hne n' hn'
+    obtain ⟨m, rfl⟩ : ∃ m, n' = m + 1 := ⟨n' - 1, by omega⟩
+    rw [splitLoop_succ] at h ⊢
+    by_cases hp : pos ≤ se
+    · simp only [hp, if_true] at h ⊢
+      cases hit : splitIter k sep sub se s cstart pos with
+      | error e => simp only [hit] at h ⊢; exact h
+      | ok x =>
+        cases x with
+        | inl r => simp only [hit] at h ⊢; exact h
+        | inr y =>
+          obtain ⟨s6, p'⟩ := y
+          simp only [hit] at h ⊢
+          exact ih s6 p' p' res h hne m (by omega)
+    · simp only [hp, if_false] at h ⊢; exact h
+
+/-- RULE_SPLIT without `s.textEnd + 2 ≤ n`: whenever the model's outer loop had enough fuel of its own -/
+theorem rule_split_returns (E : Env) (k : OK ρ) (n : Nat) (sep r : ρ) (s : St) (pos : Nat)
+    (hn : Op.step E k n (.split sep r) s pos ≠ .error .fuel) :
+    Returns (fun fuel => runL E k (ops [(1, sep), (2, r)] []) fuel Gen.PegSkel.RULE_SPLIT s pos) (Op.step E k n (.split sep r) s pos) := by
+  refine ⟨max n (s.textEnd + 2), fun fuel hf => ?_⟩
+  show runL E k (ops [(1, sep), (2, r)] []) fuel Gen.PegSkel.RULE_SPLIT s pos = _
+  rw [rule_split E k fuel sep r s pos (by omega)]
+  simp only [Op.step] at hn ⊢
+  exact splitLoop_mono k sep r s.textEnd n s pos pos _ rfl hn fuel (by omega)
+
+/-! #### non-vacuity: the extracted programs compute (concrete runs of the IR on the current peg.c cases) -/
+section Examples
+def exE : Env := { text := [97, 98, 99], args := [], hasBackref := true }
+def exS : St := { caps := [], tagged := [(1, .str [97]), (2, .str [98]), (1, .str [98, 99])], scratch := [], acc := false, textEnd := 3, depth := 10 }
+def exK : OK Nat := fun r s p => if r == 7 then .ok (some (p + 1), { s with tagged := s.tagged ++ [(1, .nil), (2, .int 5), (1, .nil)] }) else .ok (none, s)
+
+example : (run exE exK (ops [] [(1, 97 + 65536 * 122)]) Gen.PegSkel.RULE_RANGE exS 1).toOption.map (·.1) = some (some 2) := rfl
+example : (run exE exK (ops [] [(1, 97 + 65536 * 97)]) Gen.PegSkel.RULE_RANGE exS 1).toOption.map (·.1) = some none := rfl
+example : (run exE exK ⟨opsRule [], opsWord [(1, 2)], fun _ => .nil, fun b => if b = 2 then [98, 99] else []⟩ Gen.PegSkel.RULE_LITERAL exS 1).toOption.map (·.1)
+    = some (some 3) := rfl
+example : (run exE exK ⟨opsRule [], fun j => [0, 0, 0, 4, 0, 0, 0, 0].getD (j - 1) 0, fun _ => .nil, fun _ => []⟩ Gen.PegSkel.RULE_SET exS 1).toOption.map (·.1)
+    = some (some 2) := rfl
+-- (look -1 r) at 1: the sub-rule runs at 0, the rule returns 1
+example : (run exE exK (ops [(2, 7)] [(1, 4294967295)]) Gen.PegSkel.RULE_LOOK exS 1).toOption.map (·.1) = some (some 1) := rfl
+example : (run exE exK (ops [(2, 7)] [(1, 4294967295)]) Gen.PegSkel.RULE_LOOK exS 0).toOption.map (·.1) = some none := rfl
+-- the NEWEST capture tagged 1 is "bc": backmatch at 1 matches to 3, at 0 it does not; gettag pushes it
+example : (runL exE exK (ops [] [(1, 1)]) 0 Gen.PegSkel.RULE_BACKMATCH exS 1).toOption.map (·.1) = some (some 3) := rfl
+example : (runL exE exK (ops [] [(1, 1)]) 0 Gen.PegSkel.RULE_BACKMATCH exS 0).toOption.map (·.1) = some none := rfl
+example : (runL exE exK (ops [] [(1, 2), (2, 9)]) 0 Gen.PegSkel.RULE_GETTAG exS 0).toOption.map (fun x => x.2.tagged.length) = some 4 := rfl
+example : (runL exE exK (ops [] [(1, 3), (2, 9)]) 0 Gen.PegSkel.RULE_GETTAG exS 0).toOption.map (·.1) = some none := rfl
+-- unref of tag 1: of the three tagged captures the sub-rule adds, the one tagged 2 stays (compacted down)
+example : (runL exE exK (ops [(1, 7)] [(2, 1)]) 5 Gen.PegSkel.RULE_UNREF exS 0).toOption.map (fun x => x.2.tagged.map (·.1)) = some [1, 2, 1, 2] := rfl
+example : (runL exE exK (ops [(1, 7)] [(2, 0)]) 5 Gen.PegSkel.RULE_UNREF exS 0).toOption.map (fun x => x.2.tagged.map (·.1)) = some [1, 2, 1] := rfl
+-- the fuel-free meaning exists and is the model's answer (hypothesis of rule_split_returns satisfiable)
+example : Op.step exE exK 10 (.split 3 7) exS 0 ≠ .error .fuel := by
+  intro h; have := congrArg (fun r : ORes => match r with | .error .fuel => true | _ => false) h; simp at this; revert this; decide
+end Examples
+
 end JanetModel.Peg.TieSkel
